@@ -45,6 +45,18 @@ __all__ = ('combine_proximals', 'proximal_convex_conj', 'proximal_translation',
            'proximal_huber')
 
 
+def _scaled_stepsize(sigma, scalar):
+    """Return ``sigma * scalar`` for a step size or a sequence of step sizes.
+
+    A ``list`` or ``tuple`` of per-component step sizes is scaled entry-wise
+    (``list * int`` would repeat the list, ``list * float`` is an error).
+    """
+    if isinstance(sigma, (list, tuple)):
+        return [_scaled_stepsize(sigma_i, scalar) for sigma_i in sigma]
+    else:
+        return sigma * scalar
+
+
 def combine_proximals(*factory_list):
     r"""Combine proximal operators into a diagonal product space operator.
 
@@ -299,7 +311,7 @@ def proximal_arg_scaling(prox_factory, scaling):
             the step size
         """
         scaling_square = scaling * scaling
-        prox = prox_factory(sigma * scaling_square)
+        prox = prox_factory(_scaled_stepsize(sigma, scaling_square))
         space = prox.domain
         mult_inner = MultiplyOperator(scaling, domain=space, range=space)
         mult_outer = MultiplyOperator(1 / scaling, domain=space, range=space)
